@@ -182,6 +182,10 @@ func (x *Exec) runTop() {
 	// postconditions, frame
 	modTargets := x.modTargets
 	for ri, r := range f.rets {
+		// reachability of each return under the accumulated assumptions (informational vacuity guard)
+		vob := &Obligation{Class: "VAC", Func: disp, Text: "return point is reachable under the assumptions made", PC: r.pc, Goal: True, script: x.S, mark: x.S.Mark(), Expect: "sat"}
+		vob.Name = x.oblName(disp, "VAC", fmt.Sprintf("return%d", ri+1))
+		x.obls = append(x.obls, vob)
 		pctx := f.contractCtx(r.heap)
 		pctx.Lookup = nil
 		bindResults(pctx, fc, fn.Signature, r.vals)
